@@ -8,7 +8,7 @@ tf=$(mktemp /tmp/rs-XXXXXX); printf '%s' "$res" > "$tf"
 python3 - "$d" "$tf" $checks <<'PY'
 import json,sys,re
 d,tf=sys.argv[1:3]; checks=sys.argv[3:]
-res=open(tf).read()
+res=open(tf, errors='replace').read()
 m=json.load(open(d+'/meta.json'))
 caught={}
 for x in re.finditer(r'== (C\d+) exit=(\d+): (\d+) VIOLATION', res):
